@@ -90,7 +90,8 @@ Inductive pc :=
 | EIdle                                            (* external thread between operations *)
 | EFill (p : nat) (it : item)                      (* enqueue_task / wakeup: push ticket p taken *)
 | EStopStore                                       (* stop: _running loaded (true); next: store false *)
-| EStopJoinBal                                     (* stop: _balance_thread.join() *)
+| EStopJoinBal                                     (* stop: _balance_thread.join() (before the marker loop) *)
+| EStopJoinBalLate                                 (* the same join placed after the marker loop (not the current source) *)
 | EStopPush (i : Z)                                (* stop: marker loop, about to take the ticket of marker i *)
 | EStopFill (i : Z) (p : nat)
 | EStopJoin (k : nat)                              (* stop: joining worker k *)
@@ -114,7 +115,7 @@ Record thread := { trole : role; prog : list op; opi : nat; tpc : pc }.
 Record st := {
   gq : queue; lqs : list queue; running : bool; threads : list thread; nex : nat;
   started : list (nat * nat); finished : list nat;
-  accepted : list nat; acc_before : list nat; acc_local : list nat;
+  accepted : list nat; acc_before : list nat; acc_local : list nat; refused : list nat;
   stop_called : bool; stop_returned : bool; log_at_stop : nat
 }.
 
@@ -125,7 +126,7 @@ Definition mk_bal : thread := {| trole := RBal; prog := []; opi := 0; tpc := BCh
 Definition init (c : config) (progs : list (list op)) : st :=
   {| gq := empty_queue; lqs := repeat empty_queue (nworkers c); running := true;
      threads := map mk_ext progs ++ map mk_worker (seq 0 (nworkers c)) ++ (if has_balancer c then [mk_bal] else []);
-     nex := length progs; started := []; finished := []; accepted := []; acc_before := []; acc_local := [];
+     nex := length progs; started := []; finished := []; accepted := []; acc_before := []; acc_local := []; refused := [];
      stop_called := false; stop_returned := false; log_at_stop := 0 |}.
 
 (* ---- state updates ---------------------------------------------------------------------------------------- *)
@@ -135,19 +136,19 @@ Definition next_op (th : thread) : thread := {| trole := trole th; prog := prog 
 Definition set_thread (s : st) (t : nat) (th : thread) : st :=
   {| gq := gq s; lqs := lqs s; running := running s; threads := set_nth t th (threads s); nex := nex s;
      started := started s; finished := finished s; accepted := accepted s; acc_before := acc_before s;
-     acc_local := acc_local s; stop_called := stop_called s; stop_returned := stop_returned s; log_at_stop := log_at_stop s |}.
+     acc_local := acc_local s; refused := refused s; stop_called := stop_called s; stop_returned := stop_returned s; log_at_stop := log_at_stop s |}.
 Definition set_gq (s : st) (q : queue) : st :=
   {| gq := q; lqs := lqs s; running := running s; threads := threads s; nex := nex s;
      started := started s; finished := finished s; accepted := accepted s; acc_before := acc_before s;
-     acc_local := acc_local s; stop_called := stop_called s; stop_returned := stop_returned s; log_at_stop := log_at_stop s |}.
+     acc_local := acc_local s; refused := refused s; stop_called := stop_called s; stop_returned := stop_returned s; log_at_stop := log_at_stop s |}.
 Definition set_lq (s : st) (w : nat) (q : queue) : st :=
   {| gq := gq s; lqs := set_nth w q (lqs s); running := running s; threads := threads s; nex := nex s;
      started := started s; finished := finished s; accepted := accepted s; acc_before := acc_before s;
-     acc_local := acc_local s; stop_called := stop_called s; stop_returned := stop_returned s; log_at_stop := log_at_stop s |}.
+     acc_local := acc_local s; refused := refused s; stop_called := stop_called s; stop_returned := stop_returned s; log_at_stop := log_at_stop s |}.
 Definition set_running (s : st) (b : bool) : st :=
   {| gq := gq s; lqs := lqs s; running := b; threads := threads s; nex := nex s;
      started := started s; finished := finished s; accepted := accepted s; acc_before := acc_before s;
-     acc_local := acc_local s; stop_called := stop_called s; stop_returned := stop_returned s; log_at_stop := log_at_stop s |}.
+     acc_local := acc_local s; refused := refused s; stop_called := stop_called s; stop_returned := stop_returned s; log_at_stop := log_at_stop s |}.
 (* ghost updates *)
 Definition note_accept (s : st) (it : item) (loc : bool) : st :=
   match it with
@@ -156,25 +157,38 @@ Definition note_accept (s : st) (it : item) (loc : bool) : st :=
     {| gq := gq s; lqs := lqs s; running := running s; threads := threads s; nex := nex s;
        started := started s; finished := finished s; accepted := ins id (accepted s);
        acc_before := if stop_called s then acc_before s else ins id (acc_before s);
-       acc_local := if loc then ins id (acc_local s) else acc_local s;
+       acc_local := if loc then ins id (acc_local s) else acc_local s; refused := refused s;
        stop_called := stop_called s; stop_returned := stop_returned s; log_at_stop := log_at_stop s |}
   end.
+(* a submission whose enqueue_task reported failure: execute() returns an invalid future, submit() non-zero *)
+Definition note_refuse (s : st) (it : item) : st :=
+  match it with
+  | IMark _ => s
+  | IFun id =>
+    {| gq := gq s; lqs := lqs s; running := running s; threads := threads s; nex := nex s;
+       started := started s; finished := finished s; accepted := accepted s; acc_before := acc_before s;
+       acc_local := acc_local s; refused := ins id (refused s);
+       stop_called := stop_called s; stop_returned := stop_returned s; log_at_stop := log_at_stop s |}
+  end.
+(* enqueue_task returned r: the caller tests it with the generated execute()/submit() failure test *)
+Definition submit_done (s : st) (it : item) (loc : bool) (r : Z) : st :=
+  if execute_failed r then note_refuse s it else note_accept s it loc.
 Definition note_start (s : st) (id w : nat) : st :=
   {| gq := gq s; lqs := lqs s; running := running s; threads := threads s; nex := nex s;
      started := started s ++ [(id, w)]; finished := finished s; accepted := accepted s; acc_before := acc_before s;
-     acc_local := acc_local s; stop_called := stop_called s; stop_returned := stop_returned s; log_at_stop := log_at_stop s |}.
+     acc_local := acc_local s; refused := refused s; stop_called := stop_called s; stop_returned := stop_returned s; log_at_stop := log_at_stop s |}.
 Definition note_finish (s : st) (id : nat) : st :=
   {| gq := gq s; lqs := lqs s; running := running s; threads := threads s; nex := nex s;
      started := started s; finished := ins id (finished s); accepted := accepted s; acc_before := acc_before s;
-     acc_local := acc_local s; stop_called := stop_called s; stop_returned := stop_returned s; log_at_stop := log_at_stop s |}.
+     acc_local := acc_local s; refused := refused s; stop_called := stop_called s; stop_returned := stop_returned s; log_at_stop := log_at_stop s |}.
 Definition note_stop_called (s : st) : st :=
   {| gq := gq s; lqs := lqs s; running := running s; threads := threads s; nex := nex s;
      started := started s; finished := finished s; accepted := accepted s; acc_before := acc_before s;
-     acc_local := acc_local s; stop_called := true; stop_returned := stop_returned s; log_at_stop := log_at_stop s |}.
+     acc_local := acc_local s; refused := refused s; stop_called := true; stop_returned := stop_returned s; log_at_stop := log_at_stop s |}.
 Definition note_stop_returned (s : st) : st :=
   {| gq := gq s; lqs := lqs s; running := running s; threads := threads s; nex := nex s;
      started := started s; finished := finished s; accepted := accepted s; acc_before := acc_before s;
-     acc_local := acc_local s; stop_called := stop_called s; stop_returned := true; log_at_stop := length (started s) |}.
+     acc_local := acc_local s; refused := refused s; stop_called := stop_called s; stop_returned := true; log_at_stop := length (started s) |}.
 
 Definition b2z (b : bool) : Z := if b then 1 else 0.
 Definition lq_of (s : st) (w : nat) : queue := nth w (lqs s) empty_queue.
@@ -201,8 +215,12 @@ Definition worker_tid (s : st) (k : nat) : nat := (nex s + k)%nat.
 Definition bal_tid (c : config) (s : st) : nat := (nex s + nworkers c)%nat.
 
 (* stop(): after the balance thread is joined, the marker loop, then the worker joins *)
+(* where _balance_thread.join() stands relative to the marker loop (regenerated statement order) *)
+Definition early_join (c : config) : bool := has_balancer c && (stop_joins_balancer_first =? 1).
+Definition late_join (c : config) : bool := has_balancer c && negb (stop_joins_balancer_first =? 1).
 Definition stop_loop (c : config) (i : Z) : pc :=
-  if stop_push_more i (Z.of_nat (nworkers c)) then EStopPush i else EStopJoin 0.
+  if stop_push_more i (Z.of_nat (nworkers c)) then EStopPush i
+  else if late_join c then EStopJoinBalLate else EStopJoin 0.
 Definition stop_join_next (c : config) (s : st) (t : nat) (th : thread) (k : nat) : st :=
   if (S k <? nworkers c)%nat then set_thread s t (goto th (EStopJoin (S k)))
   else set_thread (note_stop_returned s) t (next_op th).
@@ -227,15 +245,20 @@ Definition step_ext (c : config) (s : st) (t : nat) (th : thread) : option st :=
     end
   | EFill p it =>
     if slot_released (gq s) (global_slots c) p
-    then Some (set_thread (note_accept (set_gq s (fill (gq s) p)) it false) t (next_op th))
+    then Some (set_thread (submit_done (set_gq s (fill (gq s) p)) it false enqueue_result) t (next_op th))
     else None
   | EStopStore =>
     let s1 := set_running s false in
-    if has_balancer c then Some (set_thread s1 t (goto th EStopJoinBal))
+    if early_join c then Some (set_thread s1 t (goto th EStopJoinBal))
     else Some (set_thread s1 t (goto th (stop_loop c stop_first_marker)))
   | EStopJoinBal =>
     match pc_of s (bal_tid c s) with
     | Some BExit => Some (set_thread s t (goto th (stop_loop c stop_first_marker)))
+    | _ => None
+    end
+  | EStopJoinBalLate =>
+    match pc_of s (bal_tid c s) with
+    | Some BExit => Some (set_thread s t (goto th (EStopJoin 0)))
     | _ => None
     end
   | EStopPush i =>
@@ -289,14 +312,14 @@ Definition step_worker (c : config) (s : st) (t w : nat) (th : thread) : option 
   | WRun id [] => Some (set_thread (note_finish s id) t (goto th WLoop))
   | WRun id (ch :: rest) =>              (* enqueue_task inside the pool: is_running_in() holds *)
     if local_enabled (lcap c) && local_has_room (queue_size (lq_of s w)) (lcap c)
-    then Some (set_thread (note_accept (set_lq s w (local_push (lq_of s w) (IFun ch))) (IFun ch) true) t (goto th (WRun id rest)))
+    then Some (set_thread (submit_done (set_lq s w (local_push (lq_of s w) (IFun ch))) (IFun ch) true enqueue_local_result) t (goto th (WRun id rest)))
     else Some (set_thread s t (goto th (WGTake id rest ch)))
   | WGTake id rest ch =>
     let '(p, q) := take_push (gq s) (IFun ch) in
     Some (set_thread (set_gq s q) t (goto th (WFill id rest p ch)))
   | WFill id rest p ch =>
     if slot_released (gq s) (global_slots c) p
-    then Some (set_thread (note_accept (set_gq s (fill (gq s) p)) (IFun ch) false) t (goto th (WRun id rest)))
+    then Some (set_thread (submit_done (set_gq s (fill (gq s) p)) (IFun ch) false enqueue_result) t (goto th (WRun id rest)))
     else None
   | _ => None
   end.
